@@ -443,6 +443,19 @@ static bool has_flonum2(Type *ty) {
   return has_flonum(ty, 8, 16, 0);
 }
 
+// A struct or union of at most 16 bytes is passed in registers only
+// if there are enough free registers for all of its eightbytes: one
+// per 8 bytes of its size, SSE if the eightbyte holds only
+// floating-point members, INTEGER otherwise.
+static bool fits_in_regs(Type *ty, int gp, int fp) {
+  bool two = ty->size > 8;
+  int nfp = has_flonum1(ty) + (two && has_flonum2(ty));
+  int ngp = !has_flonum1(ty) + (two && !has_flonum2(ty));
+  // The counters keep counting past the limits, so only look at the
+  // kind of register that is actually needed.
+  return (!nfp || fp + nfp <= FP_MAX) && (!ngp || gp + ngp <= GP_MAX);
+}
+
 static void push_struct(Type *ty) {
   int sz = align_to(ty->size, 8);
   println("  sub $%d, %%rsp", sz);
@@ -522,11 +535,12 @@ static int push_args(Node *node) {
         stack += align_to(ty->size, 8) / 8;
       } else {
         bool fp1 = has_flonum1(ty);
-        bool fp2 = has_flonum2(ty);
+        bool fp2 = ty->size > 8 && has_flonum2(ty);
+        bool gp2 = ty->size > 8 && !has_flonum2(ty);
 
-        if (fp + fp1 + fp2 < FP_MAX && gp + !fp1 + !fp2 < GP_MAX) {
+        if (fits_in_regs(ty, gp, fp)) {
           fp = fp + fp1 + fp2;
-          gp = gp + !fp1 + !fp2;
+          gp = gp + !fp1 + gp2;
         } else {
           arg->pass_by_stack = true;
           stack += align_to(ty->size, 8) / 8;
@@ -912,7 +926,7 @@ static void gen_expr(Node *node) {
         bool fp1 = has_flonum1(ty);
         bool fp2 = has_flonum2(ty);
 
-        if (fp + fp1 + fp2 < FP_MAX && gp + !fp1 + !fp2 < GP_MAX) {
+        if (fits_in_regs(ty, gp, fp)) {
           if (fp1)
             popf(fp++);
           else
@@ -1355,11 +1369,12 @@ static void assign_lvar_offsets(Obj *prog) {
       case TY_STRUCT:
       case TY_UNION:
         if (ty->size <= 16) {
-          bool fp1 = has_flonum(ty, 0, 8, 0);
-          bool fp2 = has_flonum(ty, 8, 16, 8);
-          if (fp + fp1 + fp2 < FP_MAX && gp + !fp1 + !fp2 < GP_MAX) {
+          bool fp1 = has_flonum1(ty);
+          bool fp2 = ty->size > 8 && has_flonum2(ty);
+          bool gp2 = ty->size > 8 && !has_flonum2(ty);
+          if (fits_in_regs(ty, gp, fp)) {
             fp = fp + fp1 + fp2;
-            gp = gp + !fp1 + !fp2;
+            gp = gp + !fp1 + gp2;
             continue;
           }
         }
